@@ -108,6 +108,17 @@ func layouts() []*descriptorpb.FileDescriptorProto {
 	mm := more.Msg("More")
 	mm.Field("a", 1, schema.M(am.Full()))
 	mm.Rep("ks", 2, schema.M(am.Full()))
+	// the same reserved names (they collide with protoreflect.Message methods and get renamed) in every file: what a name
+	// becomes in one file must not depend on which files were handled before it
+	tm.Field("type", 2, schema.S(schema.String))
+	tm.OneofField("get", "g_a", 3, schema.S(schema.Int32))
+	tm.OneofField("get", "g_b", 4, schema.S(schema.String))
+	am.Field("type", 5, schema.S(schema.String))
+	am.Field("descriptor", 6, schema.S(schema.Int64))
+	am.OneofField("get", "g_a", 7, schema.S(schema.Int32))
+	mm.Field("type", 3, schema.S(schema.Bytes))
+	mm.Field("descriptor", 4, schema.S(schema.Int64))
+	mm.OneofField("range", "r_a", 5, schema.S(schema.Int32))
 	// the imported well-known file is itself among the files that may be requested (protoc lets you generate it)
 	return []*descriptorpb.FileDescriptorProto{schema.WellKnown("google/protobuf/timestamp.proto"), ty.P, api.P, more.P}
 }
